@@ -78,7 +78,8 @@ def encOutcome (o : Outcome Nat) : T :=
 def agrees (exp recv : Val Nat) : Bool := encV exp == encV recv
 
 def cfgCurOf (tb : Tables) : Cfg :=
-  { nullVarUsesDefault := tb.nullVarUsesDefault, listNotCoerced := tb.listNotCoerced, symbolUnchecked := tb.symbolUnchecked }
+  { nullVarUsesDefault := tb.nullVarUsesDefault, listNotCoerced := tb.listNotCoerced, symbolUnchecked := tb.symbolUnchecked,
+    objectUnchecked := tb.objectUnchecked, symbolBaseEnum := tb.symbolBaseEnum }
 
 structure Case where
   ins : List (InputDef Nat)
@@ -139,13 +140,27 @@ def handle (tb : Tables) (c impl : T) : String :=
     let alts : List Alt :=
       [ { flag := "D09", onInCur := cfgCur.listNotCoerced, obs := run { cfgCur with listNotCoerced := !cfgCur.listNotCoerced } (inTbl tb) },
         { flag := "D10", onInCur := cfgCur.symbolUnchecked, obs := run { cfgCur with symbolUnchecked := !cfgCur.symbolUnchecked } (inTbl tb) },
+        -- D66: input-field defaults are handed on as the scanner produced them (not validated, not coerced): the
+        -- alternative is the model over the same input types with every default replaced by its coerced form
+        { flag := "D66", onInCur := tb.inputDefaultsRaw,
+          obs := encOutcome (formArgs cfgCur ext (inTbl tb) (ins.map (fun d => { d with fields := d.fields.map (fun f =>
+            { f with dflt := f.dflt.map (fun dv => (coerceInT ext (inTbl tb) ins 64 f.type dv).1) }) })) vds sup decl given) },
+        { flag := "D68", onInCur := cfgCur.symbolBaseEnum, obs := run { cfgCur with symbolBaseEnum := !cfgCur.symbolBaseEnum } (inTbl tb) },
+        { flag := "D65", onInCur := cfgCur.objectUnchecked, obs := run { cfgCur with objectUnchecked := !cfgCur.objectUnchecked } (inTbl tb) },
         { flag := "D41", onInCur := cfgCur.nullVarUsesDefault, obs := run { cfgCur with nullVarUsesDefault := !cfgCur.nullVarUsesDefault } (inTbl tb) },
         { flag := "D08", onInCur := !(unsoundIn .int (inTbl tb .int)).isEmpty,
           obs := run cfgCur (fun s => if s == .int then strictIn tb s else inTbl tb s) },
         { flag := "D46", onInCur := !(unsoundIn .float (inTbl tb .float)).isEmpty || !(unsoundIn .float64 (inTbl tb .float64)).isEmpty,
           obs := run cfgCur (fun s => if s == .float || s == .float64 then strictIn tb s else inTbl tb s) } ]
+    -- the property's first clause, checked with the independent conformance predicate on what the resolver
+    -- received (the model's arguments are the implementation's when the observations match)
+    let curOut := formArgs cfgCur ext (inTbl tb) ins vds sup decl given
+    let conformOk : Bool := !curOut.called || decl.all (fun a =>
+      match lookup curOut.args a.name with
+      | some v => conforms ext ins 64 a.type v
+      | none => a.type.nullable)
     if wmatch cur impl then
-      if specOk then "ok"
+      if specOk && conformOk then "ok"
       else
         let trig := alts.filter (fun a => a.onInCur && !(a.obs == cur))
         if trig.isEmpty then "unattributed " ++ cur.render
@@ -159,6 +174,8 @@ def handle (tb : Tables) (c impl : T) : String :=
 def flags (tb : Tables) : List (String × Bool) :=
   [("D08", !(unsoundIn .int (inTbl tb .int)).isEmpty),
    ("D46", !(unsoundIn .float (inTbl tb .float)).isEmpty),
-   ("D09", (cfgCurOf tb).listNotCoerced), ("D10", (cfgCurOf tb).symbolUnchecked), ("D41", (cfgCurOf tb).nullVarUsesDefault)]
+   ("D09", (cfgCurOf tb).listNotCoerced), ("D10", (cfgCurOf tb).symbolUnchecked), ("D41", (cfgCurOf tb).nullVarUsesDefault),
+   ("D65", (cfgCurOf tb).objectUnchecked), ("D66", tb.inputDefaultsRaw),
+   ("D68", (cfgCurOf tb).symbolBaseEnum)]
 
 end Ggql.Driver.C04
